@@ -40,6 +40,25 @@ CLAIMS = {
  'C15': dict(cat='proof', ref='DESIGN 3 C15', technique='interval-write analysis with symbolic endpoints (Scope::raw), effect summaries (PackageBuilder), emission-shape identity (strings, usize/u64)',
    text='Scope::raw resolves, for every prefix width m >= 1 symbolically, to ScopeOp ++ PkgLength(n-1) ++ path ++ children, identical to impl Aml for Scope; PackageBuilder::new/add_element keep (bytes = concatenated children, counter = count) and its emission equals Package\'s under that relation; &str/String and usize/u64 have identical shapes.',
    note='copy_within/copy_from_slice/resize modelled as interval writes per the std contract.'),
+
+ 'C03': dict(cat='other', ref='DESIGN 3 C03', technique='abstract interpretation: tagged specification segments (type/len/count/offset) vs emission shape; inductive count invariants; vector-append rule',
+   text='For 43 entry constructors the type code and length-of-self fields equal the specification constant and the symbolic size of the entry\'s own emission; 15 count fields equal the number of repeated elements (stored counts by induction over the API); array offsets equal array positions; each of the 12 variable-body tables serialises as header ++ fixed part of the specified size ++ its entry vector, and all 29 add operations append exactly their argument at the end. Two recorded findings (RDPAS, RINTC affinity).',
+   note='Tags come from spec/layouts.py; with C02 the walk by entry lengths tiles the image.'),
+ 'C04': dict(cat='translation_validation', ref='DESIGN 3 C04', technique='translation-validation-style comparison of the emission shape of constructor(args) with a specification-derived layout; setter placement via symbolic receiver; rustc field offsets',
+   text='68 structures (all tables and entry types) are compared field by field - offset, width, little-endian, source parameter, constants, reserved values, derived values - with independently written layouts; 100+ setter-filled fields are located through the serialiser on a symbolic receiver; packed-struct offsets from rustc are compared with the specification for FADT (64 fields), GAS, the table header and the TCPA server table. Three recorded findings share two roots (GenericErrorData section type, RINTC affinity).',
+   note='The oracle is my reading of the specifications (RIMT pinned to today\'s tree); validity of caller values is out of scope.'),
+ 'C11': dict(cat='other', ref='DESIGN 3 C11', technique='effect summaries (write set + update term) of every builder by abstract interpretation vs bit table; enum discriminants vs specification values; contradiction rule',
+   text='Every by-value/&mut-self method of 18 builder-bearing types is summarised on a symbolic receiver: 48 options write exactly their own fields with the specification mask (|= commutes, so subsets/orders/repetitions follow), 60+ plain setters write exactly the field of their name, constructor-time options and serialisation-time flag helpers match, 165 enum variants carry the specification value, and no two options of one structure or the same constant into one field.',
+   note='Bit tables are my reading of ACPI/TCG/CXL/RISC-V documents; pub fields can be written directly by callers.'),
+ 'C12': dict(cat='other', ref='DESIGN 3 C12', technique='store-index normal form on symbolic states vs row-major specification; constructor fill; emission order',
+   text='HMAT: one store at i*len(targets)+j, I*T cells of 0xFFFF, row-major emission; SLIT: stores exactly at a+N*b and b+N*a, N*N cells of 10, emission in index order; no other writers. Last-value-wins then follows from Vec element-store semantics; the checksum clause is C01\'s.',
+   note='Index arithmetic overflow is a C18 site.'),
+ 'C13': dict(cat='proof', ref='DESIGN 3 C13', technique='interval-write summaries of every Sdt operation vs the byte-vector model; must-pass-through and guard-before-mutation ordering on the evaluation log',
+   text='All 14 public operations (typed variants expanded) have exactly the model\'s effective writes plus the checksum byte, end in the zero/sum/store sequence with nothing after it, and evaluate their bounds assertion before any mutation; only five primitives write the image; new lays out the standard header; len >= 36 is inductive.',
+   note='Vec/slice primitives modelled per std contract; tables < 4 GiB.'),
+ 'C14': dict(cat='other', ref='DESIGN 3 C14', technique='purity/effect rules over the typed program; sink-use rule; sink-method agreement and raw-vs-serialised identity by abstract evaluation',
+   text='No statics, interior mutability or hand-written unsafe exist and serialisers take &self; all 152 serialisers evaluate with no unknown callee; all 581 uses of a sink value are receiver-of-the-five-methods or forwarding; the four default methods and every override of the four in-crate sinks deliver exactly the little-endian bytes in order; for the 31 types that are both IntoBytes and Aml the emission equals the layout bytes.',
+   note='Foreign sinks/types are out of reach; little-endian target.'),
 }
 NOT_YET = 'check not built yet (build in progress; design in DESIGN.md section 3)'
 
